@@ -28,6 +28,71 @@ func c12(c *Ctx) {
 	c12setRemove(c)
 	c12forms(c)
 	c12move(c)
+	c12drainCoverage(c)
+	// the in-memory cache is the wheel's main client: it must move/set the key's timer with the expiry of this call
+	c16cacheAs(c, "C12.R7", true)
+}
+
+// c12drainCoverage (R8): Drain delivers *each* pending timer — the drain loop visits every slot of the wheel
+// (seed r3-C12-3 started "right after the cursor" and never reached the slot under the cursor).
+func c12drainCoverage(c *Ctx) {
+	rule := "C12.R8"
+	f := c.fn(rule, twPkg, "(*TimingWheel).drainAll")
+	if f == nil {
+		return
+	}
+	isSlots := func(v ssa.Value) bool {
+		u, ok := v.(*ssa.UnOp)
+		if !ok {
+			return false
+		}
+		fa, ok := u.X.(*ssa.FieldAddr)
+		return ok && fieldNameOf(fa) == "slots"
+	}
+	isBound := func(v ssa.Value) bool {
+		if call, ok := v.(*ssa.Call); ok {
+			if b, ok := call.Call.Value.(*ssa.Builtin); ok && b.Name() == "len" && len(call.Call.Args) == 1 && isSlots(call.Call.Args[0]) {
+				return true
+			}
+		}
+		if u, ok := v.(*ssa.UnOp); ok {
+			if fa, ok := u.X.(*ssa.FieldAddr); ok && fieldNameOf(fa) == "numSlots" {
+				return true
+			}
+		}
+		return false
+	}
+	sites := 0
+	var bad []string
+	walkWithClosures(f, func(g *ssa.Function) {
+		for _, b := range g.Blocks {
+			for _, ins := range b.Instrs {
+				var idx ssa.Value
+				switch x := ins.(type) {
+				case *ssa.IndexAddr:
+					if isSlots(x.X) {
+						idx = x.Index
+					}
+				case *ssa.Index:
+					if isSlots(x.X) {
+						idx = x.Index
+					}
+				}
+				if idx == nil {
+					continue
+				}
+				sites++
+				if ok, why := fullRangeIndex(idx, isBound); !ok {
+					bad = append(bad, c.P.Pos(ins.Pos())+": "+why)
+				}
+			}
+		}
+	})
+	if sites == 0 {
+		c.R.Undecided(rule, twPkg+".(*TimingWheel).drainAll#slots", "the slot loop is recognised", "no indexing of tw.slots found")
+		return
+	}
+	c.R.Check(len(bad) == 0, rule, twPkg+".(*TimingWheel).drainAll#slots", "the drain loop visits every slot of the wheel (a range over tw.slots, or a counting loop from the first to the last slot, possibly rotated): a slot that is skipped keeps its timers, which Drain then does not deliver", posOf(c, f), fmt.Sprint(bad), nil, sites)
 }
 
 // ---------------------------------------------------------------- helpers
